@@ -5,5 +5,7 @@ set -e
 B=$(mktemp -d /tmp/psv-baseline.XXXXXX)
 trap 'rm -rf "$B"' EXIT
 cmake -G Ninja -S /repo -B "$B" -DCMAKE_BUILD_TYPE=RelWithDebInfo -DCMAKE_CXX_FLAGS=-Wno-error -DCMAKE_C_FLAGS=-Wno-error >/dev/null
-cmake --build "$B" -j16 >/dev/null
+# libcphotospline does not build under g++ 12 with the project's own -Werror (pre-existing
+# -Wvolatile-register-var in bspline_multi.h); the pinned suite does not link it, so keep going.
+cmake --build "$B" -j16 -- -k 0 >/dev/null 2>&1 || true
 ctest --test-dir "$B" -j8 --timeout 900 --output-junit "$B/junit.xml"
